@@ -51,6 +51,9 @@ class C09(EgSpec):
     streams = [
         {'name': 'default', 'component': 'eg9', 'config': 'default', 'quick': 500, 'thorough': 12000},
         {'name': 'checks', 'component': 'eg9', 'config': 'checks', 'quick': 150, 'thorough': 3000},
+        # the same probes on e-graphs that carry an analysis (MinSize / Depth): pending entries of kind OnlyAnalysis exist only there;
+        # half of the histories plant a parent that uses both classes of a later union of different-sized classes
+        {'name': 'analysis', 'component': 'eg9', 'config': 'default', 'gen_extra': ['an'], 'quick': 300, 'thorough': 6000},
     ]
 
     def evaluate(self, stream, case, impl_obs, model_obs, ctx):
